@@ -117,6 +117,7 @@ type World struct {
 
 	parked   []*parked
 	lateAcks []*lateAck
+	Raw      []*RawLink // links whose far end is real code (W-e2e), not a scripted peer
 
 	// fault plan: fail the n-th call of a backend method
 	BkFail map[string]int
@@ -728,6 +729,65 @@ func (p *Peer) Connected() bool {
 	return p.Connack != nil && p.Connack.ReturnCode == packet.ConnectionAccepted && !p.EOF
 }
 
+/* ---------- raw links (the far end is a real client) ---------- */
+
+// RawLink is a connection into the broker whose other end is handed to real
+// client code as a net.Conn.
+type RawLink struct {
+	Idx  int
+	Link *simnet.Link
+	FC   *faultConn
+}
+
+// DialIn creates a link, gives its B end to the engine and returns it; the
+// caller wraps Link.A (a net.Conn) for the client side.
+func (w *World) DialIn() *RawLink {
+	idx := len(w.Peers) + len(w.Raw) + 1000
+	link := simnet.NewLink(idx)
+	fc := &faultConn{Conn: transport.NewNetConn(link.B), w: w, idx: idx, link: link, cutAtDeliv: -1}
+	rl := &RawLink{Idx: idx, Link: link, FC: fc}
+	w.Raw = append(w.Raw, rl)
+	if w.Server.done {
+		_ = fc.Close()
+	} else {
+		w.Server.ch <- fc
+	}
+	return rl
+}
+
+// NetActions lists one closure per link direction that has something to move.
+func (w *World) NetActions() []func() {
+	var out []func()
+	for _, pr := range w.Peers[1:] {
+		pr := pr
+		if n := pr.Link.A2B.InFlight(); n > 0 && !pr.Link.A2B.Broken() {
+			out = append(out, func() { w.deliverToBroker(pr, w.chunk(n)) })
+		}
+		if n := pr.Link.B2A.InFlight(); n > 0 && !pr.Link.B2A.Broken() && !pr.Stalled {
+			out = append(out, func() { w.deliverToPeer(pr, w.chunk(n)) })
+		}
+		if pr.Link.A2B.FinPending() {
+			out = append(out, func() { pr.Link.A2B.DeliverFIN() })
+		}
+		if pr.Link.B2A.FinPending() {
+			out = append(out, func() { pr.Link.B2A.DeliverFIN() })
+		}
+	}
+	for _, rl := range w.Raw {
+		rl := rl
+		for _, p := range []*simnet.Pipe{rl.Link.A2B, rl.Link.B2A} {
+			p := p
+			if n := p.InFlight(); n > 0 && !p.Broken() {
+				out = append(out, func() { p.Deliver(w.chunk(n)) })
+			}
+			if p.FinPending() {
+				out = append(out, func() { p.DeliverFIN() })
+			}
+		}
+	}
+	return out
+}
+
 /* ---------- stepping ---------- */
 
 func wait() { synctest.Wait() }
@@ -810,6 +870,18 @@ func (w *World) progress(releaseAcks bool) bool {
 		if p.Link.B2A.FinPending() {
 			p.Link.B2A.DeliverFIN()
 			did = true
+		}
+	}
+	for _, rl := range w.Raw {
+		for _, p := range []*simnet.Pipe{rl.Link.A2B, rl.Link.B2A} {
+			if n := p.InFlight(); n > 0 && !p.Broken() {
+				p.Deliver(w.chunk(n))
+				did = true
+			}
+			if p.FinPending() {
+				p.DeliverFIN()
+				did = true
+			}
 		}
 	}
 	if len(w.parked) > 0 {
@@ -915,6 +987,9 @@ func (w *World) Teardown() []string {
 		if !p.EOF {
 			p.Link.Cut()
 		}
+	}
+	for _, rl := range w.Raw {
+		rl.Link.Cut()
 	}
 	w.Settle()
 	w.Backend.Close(time.Second)
